@@ -4,12 +4,16 @@ package mimetype
 
 import (
 	"bytes"
+	"context"
 	"errors"
 	"fmt"
 	"io"
 	"io/fs"
+	"net"
 	"os"
 	"path/filepath"
+	"strings"
+	"syscall"
 	"testing"
 
 	"pgregory.net/rapid"
@@ -40,7 +44,14 @@ type c05Wrapped struct{ inner error }
 func (e *c05Wrapped) Error() string { return "verif: connection reset: " + e.inner.Error() }
 func (e *c05Wrapped) Unwrap() error { return e.inner }
 
-var c05Errs = []error{errC05, &c05Wrapped{io.ErrUnexpectedEOF}, &c05Wrapped{io.EOF}, &fs.PathError{Op: "read", Path: "verif", Err: io.ErrUnexpectedEOF}, fmt.Errorf("verif: short body: %w", io.ErrUnexpectedEOF)}
+// c05Timeout is a transport error with the usual Timeout/Temporary methods.
+type c05Timeout struct{}
+
+func (c05Timeout) Error() string   { return "verif: i/o timeout" }
+func (c05Timeout) Timeout() bool   { return true }
+func (c05Timeout) Temporary() bool { return true }
+
+var c05Errs = []error{errC05, os.ErrDeadlineExceeded, context.DeadlineExceeded, c05Timeout{}, &net.OpError{Op: "read", Net: "tcp", Err: c05Timeout{}}, syscall.EAGAIN, syscall.EINTR, io.ErrNoProgress, io.ErrClosedPipe, io.ErrShortBuffer, fs.ErrClosed, &c05Wrapped{io.ErrUnexpectedEOF}, &c05Wrapped{io.EOF}, &fs.PathError{Op: "read", Path: "verif", Err: io.ErrUnexpectedEOF}, fmt.Errorf("verif: short body: %w", io.ErrUnexpectedEOF)}
 
 func (c *c05Case) err() error { return c05Errs[c.ErrKind%len(c05Errs)] }
 
@@ -282,32 +293,54 @@ func c05SpecialCheck(c c05Special) vfResult {
 		// still delivers, and must leave the reader at offset + consumed
 		env := bytes.Repeat([]byte{0x7e}, c.Skip)
 		all := append(env, c.X...)
-		want := Detect(c.X)
-		rd := bytes.NewReader(all)
-		_, _ = io.CopyN(io.Discard, rd, int64(c.Skip))
-		got, err := DetectReader(rd)
-		if err != nil || !c05Same(got, want) {
-			r.Err = fmt.Errorf("bytes.Reader positioned at offset %d: DetectReader = (%s, %v), Detect on the remaining bytes = %s", c.Skip, vfChainStr(got), err, vfChainStr(want))
-			return r
-		}
 		p := filepath.Join(vfScratchDir(), "c05-seek.bin")
 		if err := os.WriteFile(p, all, 0o644); err != nil {
 			panic(err)
 		}
-		f, err := os.Open(p)
-		if err != nil {
-			panic(err)
-		}
-		defer f.Close()
-		_, _ = io.CopyN(io.Discard, f, int64(c.Skip))
-		got, err = DetectReader(f)
-		if err != nil || !c05Same(got, want) {
-			r.Err = fmt.Errorf("*os.File positioned at offset %d: DetectReader = (%s, %v), Detect on the remaining bytes = %s", c.Skip, vfChainStr(got), err, vfChainStr(want))
-			return r
-		}
-		pos, _ := f.Seek(0, io.SeekCurrent)
-		if max := int64(c.Skip) + int64(min(len(c.X), int(defaultLimit))); pos > max || pos < int64(c.Skip) {
-			r.Err = fmt.Errorf("*os.File positioned at offset %d is left at offset %d after DetectReader (expected at most %d)", c.Skip, pos, max)
+		for _, limit := range []uint32{defaultLimit, 0, 100, 1 << 16} {
+			SetLimit(limit)
+			want := Detect(c.X)
+			rd := bytes.NewReader(all)
+			_, _ = io.CopyN(io.Discard, rd, int64(c.Skip))
+			got, err := DetectReader(rd)
+			if err != nil || !c05Same(got, want) {
+				r.Err = fmt.Errorf("bytes.Reader positioned at offset %d, limit %d: DetectReader = (%s, %v), Detect on the remaining bytes = %s", c.Skip, limit, vfChainStr(got), err, vfChainStr(want))
+				return r
+			}
+			st := strings.NewReader(string(all))
+			_, _ = st.Seek(int64(c.Skip), io.SeekStart)
+			got, err = DetectReader(st)
+			if err != nil || !c05Same(got, want) {
+				r.Err = fmt.Errorf("strings.Reader positioned at offset %d, limit %d: DetectReader = (%s, %v), Detect on the remaining bytes = %s", c.Skip, limit, vfChainStr(got), err, vfChainStr(want))
+				return r
+			}
+			// a reader drained by one detection is at its end for the next one
+			if limit == 0 {
+				if again, err := DetectReader(st); err != nil || !c05Same(again, Detect(nil)) {
+					r.Err = fmt.Errorf("strings.Reader already read to its end by a detection without limit: a second DetectReader = (%s, %v), expected the answer for no bytes", vfChainStr(again), err)
+					return r
+				}
+			}
+			f, err := os.Open(p)
+			if err != nil {
+				panic(err)
+			}
+			_, _ = io.CopyN(io.Discard, f, int64(c.Skip))
+			got, err = DetectReader(f)
+			pos, _ := f.Seek(0, io.SeekCurrent)
+			f.Close()
+			if err != nil || !c05Same(got, want) {
+				r.Err = fmt.Errorf("*os.File positioned at offset %d, limit %d: DetectReader = (%s, %v), Detect on the remaining bytes = %s", c.Skip, limit, vfChainStr(got), err, vfChainStr(want))
+				return r
+			}
+			most := int64(c.Skip) + int64(len(c.X))
+			if limit > 0 {
+				most = int64(c.Skip) + int64(min(len(c.X), int(limit)))
+			}
+			if pos > most || pos < int64(c.Skip) {
+				r.Err = fmt.Errorf("*os.File positioned at offset %d is left at offset %d after DetectReader under limit %d (expected at most %d)", c.Skip, pos, limit, most)
+				return r
+			}
 		}
 	case "slice-of-4GiB":
 		// a slice of exactly 2^32 (+k) bytes: only the first `limit` bytes may count. The slice is
